@@ -219,7 +219,10 @@ func (s *Source) SetPreferTok(f func() bool) {
 }
 
 // Offer hands a packet to the capture loop and returns once it has been taken.
-func (s *Source) Offer(p RawPkt) error {
+func (s *Source) Offer(p RawPkt) error { return s.OfferLogged(p, nil) }
+
+// OfferLogged is Offer with a callback at the instant the packet becomes available to the loop.
+func (s *Source) OfferLogged(p RawPkt, offered func()) error {
 	s.mu.Lock()
 	defer s.mu.Unlock()
 	if !s.wait(func() bool { return s.pending == nil }, Timeout) {
@@ -227,6 +230,9 @@ func (s *Source) Offer(p RawPkt) error {
 	}
 	want := s.taken + 1
 	s.pending = &p
+	if offered != nil {
+		offered()
+	}
 	s.broadcast()
 	if !s.wait(func() bool { return s.taken >= want }, Timeout) {
 		s.pending = nil
